@@ -327,7 +327,7 @@ func (u *fakeUp) handle(w []byte, proto string) (reply []byte, fail bool) {
 		if name == "." {
 			qlen = 5
 		}
-		target := 65521 - 11
+		target := 65505 // + 11 for the proxy's OPT = 65516
 		if b.has('H') {
 			target = 65530
 		}
